@@ -27,6 +27,15 @@ def summarise(run, res):
     nontrivial = False
     any_fired = False
     mutation = 0
+    probes = {}
+    rec_started = [False] * nC
+    rec_done = [False] * nC
+    last_rec_client = None
+    last_fault_on = [False] * nC
+    last_DP = [None] * nC
+
+    def probe(name):
+        probes[name] = probes.get(name, 0) + 1
     for ev in events:
         st = steps[ev['seq']]
         c = ev['c']
@@ -52,6 +61,22 @@ def summarise(run, res):
         ptr = ev.get('ptr')
         rec = 'off' if ptr is None else ('this' if ptr == c else 'other')
         if op in ('fwd', 'rev', 'drv'):
+            if rec == 'other':
+                probe('evaluation while another graph is recording')
+            elif rec == 'this':
+                probe('evaluation while its own graph is (still) the recording target')
+            if op == 'rev' and sweeps[c] >= 1 and not sweep_failed[c]:
+                probe('second or later reverse sweep on one forward evaluation')
+            if op == 'rev' and sweep_failed[c] and last_fwd[c] != 'failed':
+                probe('reverse sweep right after a reverse sweep that did not complete')
+            if op != 'rev' and last_fwd[c] == 'failed':
+                probe('evaluation right after a forward evaluation that did not complete')
+            if last_fault_on[c]:
+                probe('call right after a call in which an injected fault fired')
+            if op == 'fwd' and sweeps[c] >= 1:
+                probe('forward evaluation after reverse sweeps')
+            if other_since[c] >= 1 and calls_on[c] >= 1:
+                probe('call after operations on another graph since this graph\'s previous call')
             sw = '0' if sweeps[c] == 0 else ('1' if sweeps[c] == 1 else '2+')
             transitions.add('%s|rec=%s|fwd=%s|sweeps=%s|failed=%d|%s' % (
                 fam, rec, last_fwd[c], sw, int(sweep_failed[c]), kind.split(':')[0] if op != 'drv' else kind))
@@ -68,6 +93,18 @@ def summarise(run, res):
                 natural[op + '_exc'] += 1
             if ev.get('caller_owned_mutation'):
                 mutation += 1
+            last_fault_on[c] = bool(f and ev.get('fired'))
+            if op == 'fwd' and ok:
+                i0 = st['inputs'][0]
+                dp = (i0['kind'], i0['D'], i0['P'])
+                if last_DP[c] is not None and last_DP[c] != dp:
+                    probe('forward evaluation at another kind/D/P than the previous one')
+                last_DP[c] = dp
+                recc = run['clients'][c]['rec']
+                if (recc['kind'], recc.get('D'), recc.get('P')) != dp:
+                    probe('replay with a kind/D/P other than the recording one')
+            if op == 'drv' and run['clients'][c]['rec']['kind'] == 'utpm':
+                probe('driver on a graph recorded with a Taylor polynomial')
             if op == 'fwd':
                 if ok:
                     i0 = st['inputs'][0]
@@ -93,7 +130,21 @@ def summarise(run, res):
             for o in range(nC):
                 if o != c:
                     other_since[o] += 1
+            if op == 'new_graph' and any(rec_started[o] and not rec_done[o] for o in range(nC) if o != c):
+                probe('graph constructed while another graph is being recorded')
+            if op == 'seal':
+                rec_done[c] = True
+            if op == 'rec_off':
+                probe('operations on traced operands with recording off')
+            if op == 'toff':
+                probe('trace_off through a graph that is not recording')
             if op == 'rec':
+                if rec_started[c] and last_rec_client is not None and last_rec_client != c:
+                    probe('recording resumed after another graph recorded in between')
+                if st.get('begin') == 'trace_on' and rec_started[c]:
+                    probe('recording resumed with trace_on')
+                rec_started[c] = True
+                last_rec_client = c
                 prog = run['clients'][c]['program']
                 for item in ev.get('rec_vals', []):
                     if prog['instrs'][item['i']]['op'] in ('try', 'unpack'):
@@ -113,5 +164,6 @@ def summarise(run, res):
         'families': [c['program']['family'] for c in run['clients']],
         'stats': res.get('stats', {}),
         'caller_owned_mutation': mutation,
+        'probes': probes,
         'invalid': res.get('invalid'),
     }
